@@ -16,6 +16,20 @@ Definition t_mac (t : mtable) (dg secret msg : string) : string :=
   | None => "<unrecorded-mac>"
   end.
 
+(* custom registry: the shipped bytes entry plus recorded encoder / decoder calls of registered types *)
+Definition ctable := list (val * string * string).     (* value, type name, encoded payload *)
+Definition t_cenc (t : ctable) (v : val) : option (string * string) :=
+  match default_cenc v with
+  | Some r => Some r
+  | None => match find (fun e => val_eqb (fst (fst e)) v) t with Some e => Some (snd (fst e), snd e) | None => None end
+  end.
+Definition t_cdec (t : ctable) (ty payload : string) : option val :=
+  match default_cdec ty payload with
+  | Some r => Some r
+  | None => match find (fun e => String.eqb (snd (fst e)) ty && String.eqb (snd e) payload) t with
+            | Some e => Some (fst (fst e)) | None => None end
+  end.
+
 Definition dres_eqb (a b : dres) : bool :=
   match a, b with
   | DVal x, DVal y => val_eqb x y
